@@ -1,4 +1,602 @@
-//! harness family c11 (stub until the family is built)
+//! harness family c11: "a failed or read-only command never changes the image file".
+//!
+//! Black-box observation of the REAL `a2kit` binary, built from the working tree ($A2KIT_REPO,
+//! default /repo) into `<cwd>/c11-target` (cwd = /verif/work/C11 under bin/check).
+//! For every case: an image of one of several (file system, container) kinds in a generated state
+//! (empty / a few files / full disk / full directory) is copied to a scratch path, one subcommand
+//! vector is run on it, and exit status + SHA-256 of the image file before/after are observed.
+//!   oracle `failed-unchanged` : exit status != 0  =>  bytes identical
+//!   oracle `readonly-unchanged`: read-only subcommand =>  bytes identical (whatever the status)
+//!   oracle `mkdsk-no-file`    : failing mkdsk creates no file
+//!   Q `c11 admits …`          : the observed (exit class, file written? = bytes changed or mtime moved) is a possible outcome of the
+//!                               generated control skeleton under the scenario the vector was built for
+//!   Q `c11 props <cmd>`       : skeleton classification vs. the harness's own table
 use crate::util::*;
+use a2kit::fs::DiskFS;
+use std::path::{Path, PathBuf};
+use std::process::{Command, Stdio};
+use std::io::Write;
 
-pub fn run(_ctx: &mut Ctx) {}
+// ---- SHA-256 (the crate has no hash dependency) -------------------------------------------------
+const K256: [u32; 64] = [
+    0x428a2f98, 0x71374491, 0xb5c0fbcf, 0xe9b5dba5, 0x3956c25b, 0x59f111f1, 0x923f82a4, 0xab1c5ed5, 0xd807aa98, 0x12835b01,
+    0x243185be, 0x550c7dc3, 0x72be5d74, 0x80deb1fe, 0x9bdc06a7, 0xc19bf174, 0xe49b69c1, 0xefbe4786, 0x0fc19dc6, 0x240ca1cc,
+    0x2de92c6f, 0x4a7484aa, 0x5cb0a9dc, 0x76f988da, 0x983e5152, 0xa831c66d, 0xb00327c8, 0xbf597fc7, 0xc6e00bf3, 0xd5a79147,
+    0x06ca6351, 0x14292967, 0x27b70a85, 0x2e1b2138, 0x4d2c6dfc, 0x53380d13, 0x650a7354, 0x766a0abb, 0x81c2c92e, 0x92722c85,
+    0xa2bfe8a1, 0xa81a664b, 0xc24b8b70, 0xc76c51a3, 0xd192e819, 0xd6990624, 0xf40e3585, 0x106aa070, 0x19a4c116, 0x1e376c08,
+    0x2748774c, 0x34b0bcb5, 0x391c0cb3, 0x4ed8aa4a, 0x5b9cca4f, 0x682e6ff3, 0x748f82ee, 0x78a5636f, 0x84c87814, 0x8cc70208,
+    0x90befffa, 0xa4506ceb, 0xbef9a3f7, 0xc67178f2];
+
+pub fn sha256(data: &[u8]) -> String {
+    let mut h: [u32; 8] = [0x6a09e667, 0xbb67ae85, 0x3c6ef372, 0xa54ff53a, 0x510e527f, 0x9b05688c, 0x1f83d9ab, 0x5be0cd19];
+    let mut msg = data.to_vec();
+    let bitlen = (data.len() as u64).wrapping_mul(8);
+    msg.push(0x80);
+    while msg.len() % 64 != 56 { msg.push(0); }
+    msg.extend_from_slice(&bitlen.to_be_bytes());
+    for chunk in msg.chunks(64) {
+        let mut w = [0u32; 64];
+        for i in 0..16 { w[i] = u32::from_be_bytes([chunk[4 * i], chunk[4 * i + 1], chunk[4 * i + 2], chunk[4 * i + 3]]); }
+        for i in 16..64 {
+            let s0 = w[i - 15].rotate_right(7) ^ w[i - 15].rotate_right(18) ^ (w[i - 15] >> 3);
+            let s1 = w[i - 2].rotate_right(17) ^ w[i - 2].rotate_right(19) ^ (w[i - 2] >> 10);
+            w[i] = w[i - 16].wrapping_add(s0).wrapping_add(w[i - 7]).wrapping_add(s1);
+        }
+        let (mut a, mut b, mut c, mut d, mut e, mut f, mut g, mut hh) = (h[0], h[1], h[2], h[3], h[4], h[5], h[6], h[7]);
+        for i in 0..64 {
+            let s1 = e.rotate_right(6) ^ e.rotate_right(11) ^ e.rotate_right(25);
+            let ch = (e & f) ^ (!e & g);
+            let t1 = hh.wrapping_add(s1).wrapping_add(ch).wrapping_add(K256[i]).wrapping_add(w[i]);
+            let s0 = a.rotate_right(2) ^ a.rotate_right(13) ^ a.rotate_right(22);
+            let maj = (a & b) ^ (a & c) ^ (b & c);
+            let t2 = s0.wrapping_add(maj);
+            hh = g; g = f; f = e; e = d.wrapping_add(t1); d = c; c = b; b = a; a = t1.wrapping_add(t2);
+        }
+        for (x, y) in h.iter_mut().zip([a, b, c, d, e, f, g, hh]) { *x = x.wrapping_add(y); }
+    }
+    h.iter().map(|x| format!("{:08x}", x)).collect()
+}
+
+// ---- image kinds ---------------------------------------------------------------------------------
+pub struct Kind { pub name: &'static str, pub ext: &'static str, pub mk: &'static [&'static str], pub hier: bool, pub track: bool }
+pub const KINDS: [Kind; 11] = [
+    Kind { name: "dos33-do", ext: "do", mk: &["-o", "dos33", "-v", "254", "-t", "do"], hier: false, track: false },
+    Kind { name: "dos33-woz2", ext: "woz", mk: &["-o", "dos33", "-v", "254", "-t", "woz2"], hier: false, track: true },
+    Kind { name: "dos32-d13", ext: "d13", mk: &["-o", "dos32", "-v", "254", "-t", "d13"], hier: false, track: false },
+    Kind { name: "prodos-po", ext: "po", mk: &["-o", "prodos", "-v", "new.disk", "-t", "po"], hier: true, track: false },
+    Kind { name: "prodos-woz2", ext: "woz", mk: &["-o", "prodos", "-v", "new.disk", "-t", "woz2"], hier: true, track: true },
+    Kind { name: "pascal-do", ext: "do", mk: &["-o", "pascal", "-v", "blank", "-t", "do"], hier: false, track: false },
+    Kind { name: "cpm2-do", ext: "do", mk: &["-o", "cpm2", "-t", "do"], hier: false, track: false },
+    Kind { name: "cpm3-td0", ext: "td0", mk: &["-o", "cpm3", "-v", "lbl", "-t", "td0", "-k", "5.25in-kayii"], hier: false, track: false },
+    Kind { name: "fat-img", ext: "img", mk: &["-o", "fat", "-t", "img", "-k", "5.25in-ibm-dsdd9"], hier: true, track: false },
+    Kind { name: "fat-imd", ext: "imd", mk: &["-o", "fat", "-t", "imd", "-k", "5.25in-ibm-ssdd9"], hier: true, track: false },
+    Kind { name: "dos33-nib", ext: "nib", mk: &["-o", "dos33", "-v", "254", "-t", "nib"], hier: false, track: true },
+];
+pub const STATES: [&str; 4] = ["empty", "few", "fulldisk", "fulldir"];
+
+pub struct Run { pub code: i32, pub class: &'static str, pub stdout: Vec<u8> }
+
+pub struct Env { pub bin: PathBuf, pub tmp: PathBuf, pub spawned: u64 }
+
+impl Env {
+    /// run the real binary; stdin is always a pipe (never a tty), stdout goes to a file
+    pub fn run(&mut self, args: &[String], stdin: &[u8]) -> Run {
+        self.spawned += 1;
+        let outp = self.tmp.join("stdout.bin");
+        let outf = std::fs::File::create(&outp).expect("stdout file");
+        let mut child = Command::new(&self.bin).args(args).current_dir(&self.tmp)
+            .env("RUST_LOG", "off").env("RUST_BACKTRACE", "0")
+            .stdin(Stdio::piped()).stdout(Stdio::from(outf)).stderr(Stdio::null())
+            .spawn().expect("spawn a2kit");
+        let mut si = child.stdin.take().unwrap();
+        let data = stdin.to_vec();
+        let th = std::thread::spawn(move || { let _ = si.write_all(&data); });
+        let t0 = std::time::Instant::now();
+        let status = loop {
+            match child.try_wait() {
+                Ok(Some(st)) => break Some(st),
+                Ok(None) => {
+                    if t0.elapsed().as_secs() > 60 { let _ = child.kill(); let _ = child.wait(); break None; }
+                    std::thread::sleep(std::time::Duration::from_micros(500));
+                }
+                Err(_) => break None,
+            }
+        };
+        let _ = th.join();
+        let stdout = std::fs::read(&outp).unwrap_or_default();
+        match status {
+            None => Run { code: -2, class: "timeout", stdout },
+            Some(st) => match st.code() {
+                Some(0) => Run { code: 0, class: "ok", stdout },
+                Some(101) => Run { code: 101, class: "panic", stdout },
+                Some(2) => Run { code: 2, class: "usage", stdout },
+                Some(c) => Run { code: c, class: "err", stdout },
+                None => Run { code: -1, class: "signal", stdout },
+            },
+        }
+    }
+}
+
+/// build the a2kit binary from the working tree
+pub fn build_binary() -> PathBuf {
+    let repo = std::env::var("A2KIT_REPO").unwrap_or("/repo".to_string());
+    let cwd = std::env::current_dir().expect("cwd");
+    let target = match std::env::var("C11_TARGET_DIR") { Ok(t) => PathBuf::from(t), Err(_) => cwd.join("c11-target") };
+    let out = Command::new("cargo").args(["build", "--offline", "--bin", "a2kit"]).current_dir(&repo)
+        .env("CARGO_TARGET_DIR", &target).env_remove("LD_PRELOAD").env_remove("RUSTFLAGS")
+        .stdout(Stdio::piped()).stderr(Stdio::piped()).output().expect("run cargo");
+    if !out.status.success() {
+        eprintln!("c11: cannot build the a2kit binary from {}:\n{}", repo, String::from_utf8_lossy(&out.stderr).lines().rev().take(20).collect::<Vec<_>>().join("\n"));
+        std::process::exit(3);
+    }
+    target.join("debug").join("a2kit")
+}
+
+fn s(x: &str) -> String { x.to_string() }
+fn sv(xs: &[&str]) -> Vec<String> { xs.iter().map(|x| x.to_string()).collect() }
+
+/// put files in-process until one fails; returns the names that were stored (the image file is
+/// written only with the state after the successful puts)
+fn fill(path: &str, prefix: &str, size: usize, max: usize, rng: &mut Rng) -> Vec<String> {
+    let datas: Vec<Vec<u8>> = (0..max).map(|_| rng.bytes(size)).collect();
+    let attempt = |limit: usize, save: bool| -> usize {
+        let r = guarded(|| {
+            let mut disk = match a2kit::create_fs_from_file(path) { Ok(d) => d, Err(_) => return 0 };
+            let mut n = 0;
+            for i in 0..limit {
+                let name = format!("{}{}", prefix, i);
+                let ok = (|| -> Result<(), Box<dyn std::error::Error>> {
+                    let mut f = disk.new_fimg(None, true, &name)?;
+                    f.pack_raw(&datas[i])?;
+                    disk.put(&f)?;
+                    Ok(())
+                })().is_ok();
+                if !ok { break; }
+                n += 1;
+            }
+            if save && n == limit { let _ = a2kit::save_img(&mut disk, path); }
+            n
+        });
+        r.unwrap_or(usize::MAX)
+    };
+    // pass 1: how many succeed (a panic inside put counts as failure of that put: binary search down)
+    let mut m = attempt(max, false);
+    if m == usize::MAX {
+        // some put panics: find the largest prefix that does not
+        m = 0;
+        for lim in 1..=max { let k = attempt(lim, false); if k == usize::MAX || k < lim { break; } m = lim; }
+    }
+    if m > 0 { let k = attempt(m, true); if k != m { return vec![]; } }
+    (0..m).map(|i| format!("{}{}", prefix, i)).collect()
+}
+
+pub struct Base { pub path: PathBuf, pub files: Vec<String>, pub dirs: Vec<String>, pub cap: usize }
+
+/// create the base image for (kind, state) once per run
+pub fn make_base(env: &mut Env, ki: usize, st: usize, rng: &mut Rng) -> Option<Base> {
+    let kind = &KINDS[ki];
+    let path = env.tmp.join(format!("base-{}-{}.{}", kind.name, STATES[st], kind.ext));
+    let p = path.to_string_lossy().to_string();
+    let _ = std::fs::remove_file(&path);
+    let mut args = vec![s("mkdsk")];
+    args.extend(kind.mk.iter().map(|x| x.to_string()));
+    args.extend([s("-d"), p.clone()]);
+    let r = env.run(&args, b"");
+    if r.code != 0 || !path.exists() { return None; }
+    let cap = std::fs::metadata(&path).map(|m| m.len() as usize).unwrap_or(143360).max(100000).min(400000);
+    let mut files = vec![];
+    let mut dirs = vec![];
+    match st {
+        0 => {},
+        1 => {
+            files = fill(&p, "F", 300 + rng.below(3000), 3, rng);
+            if kind.hier {
+                let r = env.run(&sv(&["mkdir", "-f", "D1", "-d", &p]), b"");
+                if r.code == 0 { dirs.push(s("D1")); }
+            }
+            let r = env.run(&sv(&["put", "-f", "T1", "-t", "txt", "-d", &p]), b"HELLO WORLD\n");
+            if r.code == 0 { files.push(s("T1")); }
+        },
+        2 => {
+            files = fill(&p, "BIG", cap / 7, 12, rng);
+            let mut more = fill(&p, "MID", cap / 40, 12, rng);
+            files.append(&mut more);
+        },
+        _ => {
+            files = fill(&p, "E", 1 + rng.below(40), 320, rng);
+        }
+    }
+    Some(Base { path, files, dirs, cap })
+}
+
+// ---- in-process peeks at the case image (read only; never saved) -----------------------------------
+fn fimg_json(img: &str, name: &str, data: &[u8]) -> Option<String> {
+    guarded(|| {
+        let disk = a2kit::create_fs_from_file(img).ok()?;
+        let mut f = disk.new_fimg(None, true, name).ok()?;
+        f.pack_raw(data).ok()?;
+        Some(f.to_json(None))
+    }).ok().flatten()
+}
+fn block_len(img: &str, b: usize) -> Option<usize> {
+    guarded(|| { let mut disk = a2kit::create_fs_from_file(img).ok()?; disk.read_block(&b.to_string()).ok().map(|v| v.len()) }).ok().flatten()
+}
+fn sector_len(img: &str, c: usize, h: usize, sec: usize) -> Option<usize> {
+    guarded(|| { let mut im = a2kit::create_img_from_file(img).ok()?; im.read_sector(c, h, sec).ok().map(|v| v.len()) }).ok().flatten()
+}
+
+pub struct Case {
+    pub cmd: &'static str,
+    pub class: String,
+    pub args: Vec<String>,
+    pub stdin: Vec<u8>,
+    pub readonly: bool,
+    /// designed failure scenario: (categories, iteration, loop count); None = no failure designed
+    pub scen: Option<(&'static str, Option<usize>, usize)>,
+    pub n: usize,
+    pub post_load: bool,
+    /// for mkdsk onto a new path: the path that must not exist after a failure
+    pub fresh: Option<PathBuf>,
+}
+
+fn case(cmd: &'static str, class: &str, args: Vec<String>, stdin: Vec<u8>, readonly: bool) -> Case {
+    Case { cmd, class: class.to_string(), args, stdin, readonly, scen: None, n: 1, post_load: false, fresh: None }
+}
+
+const RO_CMDS: [&str; 7] = ["catalog", "tree", "stat", "geometry", "glob", "get", "mget"];
+const W_CMDS: [&str; 11] = ["mkdsk", "mkdir", "delete", "protect", "unprotect", "lock", "unlock", "rename", "retype", "put", "mput"];
+
+fn gen_case(env: &mut Env, rng: &mut Rng, ki: usize, st: usize, base: &Base, img: &str) -> Case {
+    let kind = &KINDS[ki];
+    let have = !base.files.is_empty();
+    let exist = if have { rng.pick(&base.files).clone() } else { s("F0") };
+    let absent = s("NOPE");
+    let newn = format!("NEW{}", rng.below(9));
+    let d = |x: &str| -> Vec<String> { let mut v: Vec<String> = x.split(' ').filter(|t| !t.is_empty()).map(|t| t.to_string()).collect(); v.push(s("-d")); v.push(img.to_string()); v };
+    let which = rng.below(100);
+    match which {
+        // ------------------------------------------------ read-only commands
+        0..=5 => {
+            let alias = *rng.pick(&["catalog", "dir", "ls", "cat"]);
+            let mut a = d(alias);
+            let mut class = s("valid");
+            if rng.chance(40) { a.push(s("--generic")); }
+            if rng.chance(30) { a.push(s("-f")); if rng.chance(50) { a.push(s("/")); } else { a.push(absent.clone()); class = s("unknown-path"); } }
+            let mut c = case("catalog", &class, a, vec![], true); c.post_load = true; c
+        },
+        6..=9 => {
+            let (cmd, mut a): (&'static str, Vec<String>) = match rng.below(4) { 0 => ("tree", d("tree")), 1 => ("stat", d("stat")), 2 => ("geometry", d("geometry")), _ => ("tree", d("tree --meta")) };
+            if rng.chance(30) { a.push(s("--indent")); a.push(s("2")); }
+            let mut c = case(cmd, "valid", a, vec![], true); c.post_load = true; c
+        },
+        10..=12 => {
+            let pat = *rng.pick(&["*", "F*", "**", "[", "*.TXT", "?1"]);
+            let mut a = d("glob"); a.push(s("-f")); a.push(s(pat));
+            let mut c = case("glob", if pat == "[" { "bad-pattern" } else { "valid" }, a, vec![], true); c.post_load = true; c
+        },
+        13..=19 => {
+            let t = *rng.pick(&["raw", "bin", "txt", "any", "auto", "rec", "atok", "itok", "mtok"]);
+            let miss = rng.chance(30);
+            let mut a = d("get"); a.extend([s("-t"), s(t), s("-f"), if miss { absent.clone() } else { exist.clone() }]);
+            let mut class = if miss || !have { s("unknown-path") } else { s("valid") };
+            if rng.chance(15) { a.push(s("--trunc")); if t != "raw" { class = s("bad-args"); } }
+            if rng.chance(10) { a.extend([s("-l"), s(*rng.pick(&["32", "x"]))]); }
+            let mut c = case("get", &class, a, vec![], true); c.post_load = true;
+            if miss { c.scen = Some(("3", None, 1)); }
+            c
+        },
+        20..=23 => {
+            let spec = *rng.pick(&["0", "1..4", "5,,7..9", "99999", "x", "3..2", "1,2"]);
+            let mut a = d("get -t block"); a.extend([s("-f"), s(spec)]);
+            let mut c = case("get", "block", a, vec![], true); c.post_load = true; c.n = 3; c
+        },
+        24..=28 => {
+            let (t, spec) = match rng.below(8) {
+                0 => ("sec", "0,0,0"), 1 => ("sec", "1,0,1..4"), 2 => ("sec", "99,0,0"), 3 => ("sec", "a,b"),
+                4 => ("track", "1,0"), 5 => ("raw_track", "1,0"), 6 => ("raw_track", "1"), _ => ("meta", ""),
+            };
+            let mut a = d("get"); a.extend([s("-t"), s(t)]);
+            if !spec.is_empty() { a.extend([s("-f"), s(spec)]); } else if rng.chance(50) { a.extend([s("-f"), s(*rng.pick(&["/woz2/info/", "/woz2/", "nokey", "/nokey/"]))]); }
+            let mut c = case("get", t, a, vec![], true); c.post_load = true; c.n = 3; c
+        },
+        29..=34 => {
+            // mget: list of names, the k-th one absent / not a string; or malformed JSON
+            let n = rng.range(1, 5);
+            let mode = rng.below(5);
+            let k = rng.below(n);
+            let mut arr = json::JsonValue::new_array();
+            for i in 0..n {
+                let nm = if have { base.files[(i + rng.below(3)) % base.files.len()].clone() } else { format!("F{}", i) };
+                if i == k && mode == 1 { let _ = arr.push(absent.clone()); }
+                else if i == k && mode == 2 { let _ = arr.push(42); }
+                else { let _ = arr.push(nm); }
+            }
+            let mut text = arr.dump().into_bytes();
+            let class = match mode { 1 => format!("failed-item-{}-of-{}", k + 1, n), 2 => format!("nonstring-item-{}-of-{}", k + 1, n), 3 => { text.truncate(text.len() / 2); s("malformed-stdin") }, 4 => { text = b"{\"a\":1}".to_vec(); s("malformed-stdin") }, _ => s("valid") };
+            let mut c = case("mget", &class, d("mget"), text, true);
+            c.n = n; c.post_load = mode <= 2;
+            if mode == 1 || !have { c.scen = Some(("3", if have { Some(k) } else { Some(0) }, n)); }
+            c
+        },
+        // ------------------------------------------------ writers
+        35..=39 => {
+            let alias = *rng.pick(&["delete", "del", "era"]);
+            let miss = rng.chance(50) || !have;
+            let mut a = d(alias); a.extend([s("-f"), if miss { absent.clone() } else { exist.clone() }]);
+            let mut c = case("delete", if miss { "unknown-path" } else { "valid" }, a, vec![], false); c.post_load = true;
+            if miss { c.scen = Some(("2", None, 1)); }
+            c
+        },
+        40..=44 => {
+            let mode = rng.below(3);
+            let (from, to) = match mode { 0 => (exist.clone(), newn.clone()), 1 => (absent.clone(), newn.clone()), _ => (exist.clone(), if base.files.len() > 1 { base.files[0].clone() } else { exist.clone() }) };
+            let mut a = d("rename"); a.extend([s("-f"), from, s("-n"), to]);
+            let mut c = case("rename", match mode { 0 => "valid", 1 => "unknown-path", _ => "name-exists" }, a, vec![], false); c.post_load = true;
+            if mode != 0 || !have { c.scen = Some(("2", None, 1)); }
+            c
+        },
+        45..=48 => {
+            let cmd: &'static str = if rng.chance(50) { "lock" } else { "unlock" };
+            let miss = rng.chance(40) || !have;
+            let mut a = d(cmd); a.extend([s("-f"), if miss { absent.clone() } else { exist.clone() }]);
+            let mut c = case(cmd, if miss { "unknown-path" } else { "valid" }, a, vec![], false); c.post_load = true;
+            if miss { c.scen = Some(("2", None, 1)); }
+            c
+        },
+        49..=52 => {
+            let mode = rng.below(3);
+            let mut a = d("retype"); a.extend([s("-f"), if mode == 1 || !have { absent.clone() } else { exist.clone() }, s("-t"), s(if mode == 2 { "zzz?" } else { *rng.pick(&["bin", "txt", "0x06", "4"]) }), s("-a"), s(*rng.pick(&["0", "768", "x"]))]);
+            let mut c = case("retype", match mode { 0 => "valid", 1 => "unknown-path", _ => "bad-type" }, a, vec![], false); c.post_load = true;
+            if mode != 0 || !have { c.scen = Some(("2", None, 1)); }
+            c
+        },
+        53..=56 => {
+            let mode = rng.below(3);
+            let target = match mode { 0 => s("NEWDIR"), 1 => if have { exist.clone() } else { s("NEWDIR") }, _ => s("A/B/C/D") };
+            let mut a = d("mkdir"); a.extend([s("-f"), target]);
+            let class = if !kind.hier { "flat-fs" } else { match mode { 0 => "valid", 1 => "name-exists", _ => "unknown-path" } };
+            let mut c = case("mkdir", class, a, vec![], false); c.post_load = true;
+            if !kind.hier || mode != 0 { c.scen = Some(("2", None, 1)); }
+            c
+        },
+        57..=59 => {
+            let (cmd, mut a): (&'static str, Vec<String>) = if rng.chance(50) { ("protect", d("protect -p secret --read --write")) } else { ("unprotect", d("unprotect")) };
+            a.extend([s("-f"), if rng.chance(50) { exist.clone() } else { absent.clone() }]);
+            let mut c = case(cmd, "any", a, vec![], false); c.post_load = true; c.scen = Some(("2", None, 1)); c
+        },
+        60..=69 => {
+            // put a file
+            let t = *rng.pick(&["bin", "raw", "txt", "rec", "atok", "any"]);
+            let mode = rng.below(7);
+            let big = st == 2 || mode == 5;
+            let size = if big { base.cap / 3 } else { 1 + rng.below(2000) };
+            let mut data = if t == "txt" { (0..size).map(|i| if i % 40 == 39 { b'\n' } else { b'A' + (i % 26) as u8 }).collect::<Vec<u8>>() } else { rng.bytes(size) };
+            let name = if mode == 1 && have { exist.clone() } else { newn.clone() };
+            let mut class = s(if mode == 1 && have { "name-exists" } else if big { "disk-full" } else if st == 3 { "directory-full" } else { "valid" });
+            let mut scen: Option<(&'static str, Option<usize>, usize)> = if class != "valid" { Some(("2", None, 1)) } else { None };
+            if t == "any" {
+                let js = fimg_json(img, &name, &data).unwrap_or(s("{}"));
+                data = js.clone().into_bytes();
+                match mode {
+                    2 => { data.truncate(data.len() / 2); class = s("malformed-stdin"); scen = Some(("0", None, 1)); },
+                    3 => { data = js.replacen("\":\"", "\":\"ZZ", 2).into_bytes(); class = s("malformed-stdin-hex"); scen = Some(("0,2", None, 1)); },
+                    4 => { data = js.replace("\"file_system\":\"", "\"file_system\":\"x").into_bytes(); class = s("wrong-fs"); scen = Some(("0,2", None, 1)); },
+                    _ => {}
+                }
+            } else if t == "rec" {
+                data = match mode { 2 => b"{\"fimg".to_vec(), _ => b"{\"a2kit_type\":\"rec\",\"record_length\":16,\"records\":{\"0\":[\"A\"],\"2\":[\"B\"]}}".to_vec() };
+                if mode == 2 { class = s("malformed-stdin"); scen = Some(("0", None, 1)); }
+            } else if t == "txt" && mode == 2 {
+                data = vec![0xff, 0xfe, 0x80, 0x81]; class = s("malformed-stdin-utf8"); scen = Some(("0", None, 1));
+            } else if mode == 3 && t == "bin" {
+                data = vec![]; class = s("empty-stdin"); scen = None;
+            }
+            let mut a = d("put"); a.extend([s("-t"), s(t), s("-f"), name]);
+            if t == "bin" || rng.chance(20) { a.extend([s("-a"), s(if mode == 6 { "xyz" } else { "768" })]); if mode == 6 { class = s("bad-args"); scen = Some(("0", None, 1)); } }
+            let mut c = case("put", &class, a, data, false);
+            c.post_load = class != "bad-args" && class != "empty-stdin"; c.scen = scen; c
+        },
+        70..=75 => {
+            // put block(s)
+            let bl = block_len(img, 5).unwrap_or(512);
+            let mode = rng.below(7);
+            let (spec, nblk, datalen): (String, usize, usize) = match mode {
+                0 => (s("5"), 1, bl), 1 => (s("5"), 1, bl / 2), 2 => (s("5..8"), 3, 3 * bl), 3 => (s("5..8"), 3, 3 * bl - 7),
+                4 => (s("99999"), 1, bl), 5 => (s("5..700"), 695, 695 * bl), _ => (s("5,,x"), 1, bl),
+            };
+            let mut a = d("put -t block"); a.extend([s("-f"), spec]);
+            let class = match mode { 0 | 2 => "valid", 1 => "short-buffer", 3 => "buffer-mismatch", 4 => "out-of-range", 5 => format!("range-runs-off-end").leak() as &str, _ => "bad-args" };
+            let mut c = case("put", &format!("block/{}", class), a, rng.bytes(datalen), false);
+            c.n = nblk.min(6); c.post_load = mode != 6;
+            if mode == 4 { c.scen = Some(("2,3", None, c.n)); }
+            c
+        },
+        76..=81 => {
+            // put sector(s) / raw track / track
+            let sl = sector_len(img, 1, 0, 1).unwrap_or(256);
+            let mode = rng.below(10);
+            let (t, spec, datalen): (&str, &str, usize) = match mode {
+                0 => ("sec", "1,0,1", sl), 1 => ("sec", "1,0,1..4", 3 * sl), 2 => ("sec", "1,0,1..4", 3 * sl + 5), 3 => ("sec", "1,0,77", sl),
+                4 => ("sec", "99,0,1", sl), 5 => ("sec", "1,0", sl), 6 => ("sec", "1,0,7..40", 33 * sl), 7 => ("track", "1,0", 100),
+                8 => ("raw_track", "1,0", 0), _ => ("raw_track", "1,0,3", 100),
+            };
+            let mut data = rng.bytes(datalen);
+            let mut class = s(match mode { 0 | 1 => "valid", 2 => "buffer-mismatch", 3 | 4 => "out-of-range", 5 | 9 => "bad-args", 6 => "range-runs-off-end", 7 => "unsupported", _ => "valid" });
+            if mode == 8 {
+                let r = env.run(&{ let mut g = d("get -t raw_track -f 2,0"); g.truncate(g.len()); g }, b"");
+                if r.code == 0 && !r.stdout.is_empty() { data = r.stdout; if rng.chance(40) { data.truncate(data.len() / 2); class = s("short-buffer"); } } else { data = rng.bytes(6656); class = s("no-tracks"); }
+            }
+            let mut a = d("put"); a.extend([s("-t"), s(t), s("-f"), s(spec)]);
+            let mut c = case("put", &format!("{}/{}", t, class), a, data, false);
+            c.n = 3; c.post_load = true;
+            if mode == 3 || mode == 4 { c.scen = Some(("2,3", None, 1)); }
+            c
+        },
+        82..=85 => {
+            // put metadata
+            let r = env.run(&d("get -t meta"), b"");
+            let valid = if r.code == 0 { String::from_utf8_lossy(&r.stdout).to_string() } else { s("{}") };
+            let mode = rng.below(7);
+            let mut a = d("put -t meta");
+            let mut class = s("valid");
+            let data: Vec<u8> = match mode {
+                0 => valid.clone().into_bytes(),
+                1 => { a.extend([s("-f"), s("/woz2/info/")]); valid.clone().into_bytes() },
+                2 => { a.extend([s("-f"), s("woz2/info")]); class = s("bad-selection"); valid.clone().into_bytes() },
+                3 => { class = s("malformed-stdin"); valid[..valid.len() / 2].as_bytes().to_vec() },
+                4 => { class = s("pretty-without-raw"); b"{\"woz2\":{\"info\":{\"disk_type\":{\"_pretty\":\"x\"}}}}".to_vec() },
+                5 => {
+                    // valid keys first, then a key the image must refuse: failure on the n-th item
+                    class = s("failed-item-last");
+                    match json::parse(&valid) {
+                        Ok(mut v) => {
+                            let mut done = false;
+                            for (_k, top) in v.entries_mut() { if top.is_object() && !done { let _ = top.insert("zzz_bogus", json::object! { "_raw": "zz" }); done = true; } }
+                            v.dump().into_bytes()
+                        },
+                        Err(_) => b"{\"zzz\":{\"_raw\":\"00\"}}".to_vec(),
+                    }
+                },
+                _ => { class = s("malformed-stdin-utf8"); vec![0xff, 0x00, 0x7b] },
+            };
+            let mut c = case("put", &format!("meta/{}", class), a, data, false);
+            c.n = 4; c.post_load = true;
+            if mode == 3 || mode == 6 { c.scen = Some(("0", None, c.n)); }
+            c
+        },
+        86..=94 => {
+            // mput: batch of n file images, the k-th fails
+            let n = rng.range(1, 5);
+            let mode = rng.below(6);      // 0 all good; 1 duplicate name; 2 broken object; 3 number; 4 too large; 5 malformed JSON
+            let k = rng.below(n);
+            let mut arr = json::JsonValue::new_array();
+            for i in 0..n {
+                let nm = format!("M{}X{}", i, rng.below(99));
+                let sz = if i == k && mode == 4 { base.cap / 2 } else if st == 2 { 8000 } else { 1 + rng.below(1500) };
+                let data = rng.bytes(sz);
+                let js = if i == k && mode == 1 && have { fimg_json(img, &exist, &data) } else { fimg_json(img, &nm, &data) };
+                let v = match js { Some(t) => json::parse(&t).unwrap_or(json::JsonValue::Null), None => json::JsonValue::Null };
+                if i == k && mode == 2 { let mut o = v.clone(); o.remove("chunks"); o.remove("fimg_version"); let _ = arr.push(o); }
+                else if i == k && mode == 3 { let _ = arr.push(7); }
+                else { let _ = arr.push(v); }
+            }
+            let mut text = arr.dump().into_bytes();
+            let designed = (mode >= 1 && mode <= 4) && !(mode == 1 && !have);
+            let mut class = if designed { format!("failed-item-{}-of-{}", k + 1, n) } else { s("valid") };
+            if mode == 5 { text.truncate(text.len() * 2 / 3); class = s("malformed-stdin"); }
+            if st == 2 && !designed && mode != 5 { class = s("disk-full"); }
+            if st == 3 && !designed && mode != 5 { class = s("directory-full"); }
+            let mut a = d("mput");
+            if rng.chance(15) { a.extend([s("-f"), s(if kind.hier { "/" } else { "0:" })]); }
+            let mut c = case("mput", &class, a, text, false);
+            c.n = n; c.post_load = mode != 5;
+            if designed { c.scen = Some(("0,2", Some(k), n)); }
+            else if mode == 5 { c.scen = Some(("0", None, n)); }
+            c
+        },
+        95..=96 => {
+            // mkdsk must refuse to overwrite, and a failing mkdsk must not create a file
+            if rng.chance(60) {
+                let mut a = vec![s("mkdsk")]; a.extend(kind.mk.iter().map(|x| x.to_string())); a.extend([s("-d"), img.to_string()]);
+                let mut c = case("mkdsk", "overwrite-existing", a, vec![], false); c.post_load = true; c
+            } else {
+                let fresh = env.tmp.join(format!("fresh.{}", *rng.pick(&["do", "po", "woz", "xyz", "img"])));
+                let _ = std::fs::remove_file(&fresh);
+                let combos: [&[&str]; 5] = [&["-o", "dos33", "-t", "do"], &["-o", "prodos", "-v", "x", "-t", "d13"], &["-o", "dos33", "-v", "0", "-t", "do"],
+                    &["-o", "fat", "-t", "woz2"], &["-o", "pascal", "-v", "toolongvolumename", "-t", "po", "-b"]];
+                let mut a = vec![s("mkdsk")]; a.extend(rng.pick(&combos).iter().map(|x| x.to_string())); a.extend([s("-d"), fresh.to_string_lossy().to_string()]);
+                let mut c = case("mkdsk", "bad-combination", a, vec![], false); c.fresh = Some(fresh); c
+            }
+        },
+        97 => {
+            // inconsistent get/put argument patterns with the image named
+            let (cmd, a): (&'static str, Vec<String>) = match rng.below(4) { 0 => ("put", d("put -t bin")), 1 => ("put", d("put -f X")), 2 => ("get", d("get -t bin")), _ => ("get", d("get -f X")) };
+            case(cmd, "bad-args", a, b"data".to_vec(), cmd == "get")
+        },
+        _ => {
+            // rejected by clap before any handler runs
+            let (cmd, a): (&'static str, Vec<String>) = match rng.below(4) { 0 => ("delete", d("delete")), 1 => ("put", d("put -t nosuchtype -f X")), 2 => ("catalog", d("catalog --bogus")), _ => ("rename", d("rename -f A")) };
+            case(cmd, "usage", a, vec![], RO_CMDS.contains(&cmd))
+        }
+    }
+}
+
+pub fn run(ctx: &mut Ctx) {
+    let bin = build_binary();
+    let tmp = std::env::current_dir().expect("cwd").join(format!("c11-tmp-{}", std::process::id()));
+    let _ = std::fs::remove_dir_all(&tmp);
+    std::fs::create_dir_all(&tmp).expect("tmp dir");
+    let mut env = Env { bin, tmp: tmp.clone(), spawned: 0 };
+    // skeleton classification vs. the harness's own table
+    if ctx.out.only.is_none() {
+        for c in RO_CMDS { ctx.out.q(&format!("c11 props {}", c), "savelast=1 readonly=1"); }
+        for c in W_CMDS { ctx.out.q(&format!("c11 props {}", c), "savelast=1 readonly=0"); }
+    }
+    let n = ctx.n(330, 20000);
+    let mut bases: std::collections::HashMap<(usize, usize), Option<Base>> = std::collections::HashMap::new();
+    let mut root = Rng::new(ctx.seed);
+    let quick_kinds: [usize; 11] = [0, 3, 8, 5, 6, 1, 2, 4, 7, 9, 10];
+    for idx in 0..n {
+        let mut rng = root.fork(idx as u64);
+        if !ctx.out.wants(idx) { continue; }
+        let ki = quick_kinds[idx % 11];
+        let st = match rng.below(10) { 0 => 0, 1..=5 => 1, 6..=7 => 2, _ => 3 };
+        // full-directory bases are the expensive ones: in the quick tier only for the small directories
+        let st = if st == 3 && !ctx.tier_thorough && !(ki == 3 || ki == 5 || ki == 6) { 1 } else { st };
+        if !bases.contains_key(&(ki, st)) {
+            let mut brng = Rng::new(ctx.seed ^ 0xC11).fork((1000 + ki * 10 + st) as u64);
+            let b = make_base(&mut env, ki, st, &mut brng);
+            bases.insert((ki, st), b);
+        }
+        let base = match bases.get(&(ki, st)).unwrap() { Some(b) => Base { path: b.path.clone(), files: b.files.clone(), dirs: b.dirs.clone(), cap: b.cap }, None => { ctx.out.count("base-image-unavailable"); continue; } };
+        let kind = &KINDS[ki];
+        let imgp = tmp.join(format!("case.{}", kind.ext));
+        let img = imgp.to_string_lossy().to_string();
+        std::fs::copy(&base.path, &imgp).expect("copy base");
+        let c = gen_case(&mut env, &mut rng, ki, st, &base, &img);
+        let before = std::fs::read(&imgp).expect("read image");
+        let h0 = sha256(&before);
+        // park the modification time in the past so that a rewrite with identical bytes is visible too
+        let old_time = std::time::UNIX_EPOCH + std::time::Duration::from_secs(1_000_000_000);
+        if let Ok(f) = std::fs::File::options().write(true).open(&imgp) { let _ = f.set_modified(old_time); }
+        let r = env.run(&c.args, &c.stdin);
+        let after = std::fs::read(&imgp).unwrap_or_default();
+        let h1 = sha256(&after);
+        let changed = before != after;
+        let rewritten = match std::fs::metadata(&imgp).and_then(|m| m.modified()) { Ok(t) => t != old_time, Err(_) => true };
+        if rewritten && !changed { ctx.out.count("rewritten-with-identical-bytes"); }
+        debug_assert_eq!(changed, h0 != h1);
+        let desc = format!("idx={} kind={} state={} files={} cmd=[a2kit {}] stdin={}B class={} exit={}({}) sha256 {} -> {}",
+            idx, kind.name, STATES[st], base.files.len(), c.args.join(" ").replace(&img, "IMG"), c.stdin.len(), c.class, r.code, r.class, &h0[..16], &h1[..16]);
+        // direct oracles
+        if r.code != 0 {
+            ctx.out.oracle(!changed, "failed-unchanged", &format!("c11/{}/{}/image-changed", c.cmd, c.class), &desc);
+        }
+        if c.readonly {
+            ctx.out.oracle(!changed, "readonly-unchanged", &format!("c11/{}/read-only/image-changed", c.cmd), &desc);
+        }
+        if let Some(fresh) = &c.fresh {
+            if r.code != 0 { ctx.out.oracle(!fresh.exists(), "mkdsk-no-file", "c11/mkdsk/failed/file-created", &desc); }
+            let _ = std::fs::remove_file(fresh);
+        }
+        // skeleton semantics: is the observed outcome a possible one?
+        if c.fresh.is_none() && (r.class == "ok" || r.class == "err") {
+            let (cats, at, nn) = if r.class == "ok" { ("-", None, c.n) } else { match c.scen { Some(x) => x, None => ("0,1,2,3,4", None, c.n) } };
+            let at_s = match at { Some(k) => k.to_string(), None => s("-") };
+            ctx.out.q(&format!("c11 admits {} {} {} {} {} {}", c.cmd, cats, at_s, nn.max(1), r.class, if changed || rewritten { 1 } else { 0 }), "yes");
+        }
+        let nontrivial = r.class != "usage" && r.class != "timeout"
+            && ((r.code != 0 && c.post_load) || (c.readonly && r.code == 0) || (!c.readonly && r.code == 0 && changed));
+        ctx.out.case(format!("{}|{}|{}|{}|{}", c.cmd, c.class, kind.name, STATES[st], r.class).as_bytes(), nontrivial);
+        ctx.out.count(&format!("cmd/{}", c.cmd));
+        ctx.out.count(&format!("exit/{}", r.class));
+        ctx.out.count(&format!("state/{}", STATES[st]));
+        ctx.out.count(&format!("kind/{}", kind.name));
+        if c.class.starts_with("failed-item") { ctx.out.count(&format!("batch/{}/{}", c.cmd, c.class)); }
+        if r.code != 0 && !c.readonly { ctx.out.count("writer-failed"); }
+        if r.code == 0 && changed { ctx.out.count("writer-succeeded-changed"); }
+        if idx % 37 == 0 || (c.class.starts_with("failed-item") && idx % 5 == 0) { ctx.out.sample(&desc); }
+    }
+    ctx.out.count_n("spawned-processes", env.spawned);
+    let _ = std::fs::remove_dir_all(&tmp);
+}
